@@ -135,6 +135,8 @@ func runC03(c *Ctx) {
 	c18NextHopPort(c)
 	// the host table behind "resolves to" (shared with C13)
 	c13AliasTable(c)
+	rulePureCapture(c, "pure-capture")
+	c18Wiring(c, "next-hop-port")
 }
 
 func c03HopChain(c *Ctx, f *ssa.Function) {
